@@ -79,7 +79,7 @@ func init() {
 		Run:      runC05,
 		Required: func(string) []string { return []string{"equal+empty", "unequal+nonempty", "equal-by-reading-only"} },
 		Assume:   []string{"accidental FNV collisions are out of reach; Precision is never judged on the boundary |x-y| = eps"},
-		Budget:   budget(4*time.Minute, 40*time.Minute),
+		Budget:   budget(7*time.Minute, 40*time.Minute),
 	})
 }
 
